@@ -100,7 +100,8 @@ func TestVerifC27(t *testing.T) {
 			}
 			trueDur := s.mediaEnd(len(s.Parts))
 			hdr := time.Duration(s.MvhdDuration) * time.Second / time.Duration(max(s.MvhdTimescale, 1))
-			if d := trueDur - hdr; d < 0 || d >= time.Second/time.Duration(max(s.MvhdTimescale, 1)) {
+			// the header counts whole ticks of the movie time scale (1 ms) of a duration that was itself rounded per sample
+			if d := trueDur - hdr; d < -time.Microsecond || d > time.Second/time.Duration(max(s.MvhdTimescale, 1))+time.Microsecond {
 				r.Violation("closed-segment-duration", fmt.Sprintf("segment %s: header duration %v, media ends at %v", filepath.Base(p), hdr, trueDur), nil)
 			}
 			if spec.Video {
